@@ -542,4 +542,368 @@ theorem streamF_length (cfg : StreamCfg) (opq : Nat → Bool) (s : FState) (line
         subst h
         simp [ih s' os hr]
 
+/-! ### deciding `FlowOk` on the generated table
+
+Syntactic, conservative checks of the generated expressions (sound for every table, proved once): the theorem
+about the table in `Props/C17.lean` is then a `decide` over the finite generated data. -/
+
+/-- `previous_key.as_deref() == Some(&key)`, in either order, or a conjunction / disjunction of such tests. -/
+def isKeyEq : BoolE → Bool
+  | .optEq .prevKey (.some .key) => true
+  | .optEq (.some .key) .prevKey => true
+  | .and a b => isKeyEq a && isKeyEq b
+  | .or a b => isKeyEq a && isKeyEq b
+  | _ => false
+
+/-- `forces true x`: "`x` holds" forces the key to be the previous key; `forces false x`: "`x` does not hold"
+forces it. -/
+def forces : Bool → BoolE → Bool
+  | true, .ff => true
+  | false, .tt => true
+  | true, .optEq .prevKey (.some .key) => true
+  | true, .optEq (.some .key) .prevKey => true
+  | true, .and a b => forces true a || forces true b
+  | true, .or a b => forces true a && forces true b
+  | false, .and a b => forces false a && forces false b
+  | false, .or a b => forces false a || forces false b
+  | true, .not a => forces false a
+  | false, .not a => forces true a
+  | _, _ => false
+
+def totalN (nr : Nat) : NumE → Bool
+  | .lit _ => true
+  | .lineNumber => true
+  | .reg i => decide (i < nr)
+  | .add _ _ => false
+  | .sub _ _ => false
+  | .satAdd a b => totalN nr a && totalN nr b
+  | .satSub a b => totalN nr a && totalN nr b
+
+def totalO (ns : Nat) : OptStrE → Bool
+  | .sreg i => decide (i < ns)
+  | _ => true
+
+def totalB (nr ns : Nat) : BoolE → Bool
+  | .optEq a b => totalO ns a && totalO ns b
+  | .isSome a => totalO ns a
+  | .cmp _ a b => totalN nr a && totalN nr b
+  | .and a b => totalB nr ns a && totalB nr ns b
+  | .or a b => totalB nr ns a && totalB nr ns b
+  | .not a => totalB nr ns a
+  | _ => true
+
+/-- No checked `usize` arithmetic anywhere in the table and every register it mentions is declared. -/
+def tableTotal : Bool :=
+  let nr := Generated.BlameFlow.numRegs.length
+  let ns := Generated.BlameFlow.strRegs.length
+  Generated.BlameFlow.alwaysN.all (totalN nr) && Generated.BlameFlow.alwaysB.all (totalB nr ns) &&
+  totalB nr ns Generated.BlameFlow.blankFlag && totalB nr ns Generated.BlameFlow.styleFlag &&
+  totalB nr ns Generated.BlameFlow.numberFlag && totalB nr ns Generated.BlameFlow.stateGuard &&
+  Generated.BlameFlow.numNext.all (fun u => u.all fun gv => totalB nr ns gv.1 && totalN nr gv.2) &&
+  Generated.BlameFlow.strNext.all (fun u => u.all fun gv => totalB nr ns gv.1 && totalO ns gv.2)
+
+/-- The generated data flow satisfies the checks. -/
+def tableOk : Bool :=
+  isKeyEq Generated.BlameFlow.styleFlag && forces true Generated.BlameFlow.blankFlag &&
+  forces true Generated.BlameFlow.numberFlag && forces false Generated.BlameFlow.stateGuard && tableTotal
+
+
+local macro "kill" h:ident : tactic =>
+  `(tactic| first | (simp [isKeyEq, forces] at $h:ident; done) | (cases $h:ident; done))
+
+/-- The two spellings of the key test are the only `optEq` shapes the checks accept. -/
+theorem keyEq_shapes (f : BoolE → Bool) (hf : f = isKeyEq ∨ f = forces true) (a b : OptStrE)
+    (h : f (.optEq a b) = true) :
+    (a = .prevKey ∧ b = .some .key) ∨ (a = .some .key ∧ b = .prevKey) := by
+  rcases hf with hf | hf <;> subst hf
+  all_goals
+    cases a with
+    | prevKey =>
+      cases b with
+      | some s =>
+        cases s with
+        | key => exact Or.inl ⟨rfl, rfl⟩
+        | author => kill h
+        | commit => kill h
+      | prevKey => kill h
+      | sreg i => kill h
+      | none => kill h
+    | some s =>
+      cases s with
+      | key =>
+        cases b with
+        | prevKey => exact Or.inr ⟨rfl, rfl⟩
+        | sreg i => kill h
+        | some t => kill h
+        | none => kill h
+      | author => cases b <;> kill h
+      | commit => cases b <;> kill h
+    | sreg i => cases b <;> kill h
+    | none => cases b <;> kill h
+
+theorem isKeyEq_sound (e : Env) : ∀ x, isKeyEq x = true → evalB e x = some e.keyEq := by
+  intro x
+  induction x with
+  | optEq a b =>
+    intro h
+    rcases keyEq_shapes isKeyEq (Or.inl rfl) a b h with ⟨ha, hb⟩ | ⟨ha, hb⟩ <;> subst ha <;> subst hb
+    · simp [evalB, evalO, evalS, Env.keyEq]
+    · simp [evalB, evalO, evalS, Env.keyEq, eq_comm]
+  | and a b iha ihb =>
+    intro h
+    simp only [isKeyEq, Bool.and_eq_true] at h
+    simp only [evalB, iha h.1, ihb h.2]
+    cases e.keyEq <;> rfl
+  | or a b iha ihb =>
+    intro h
+    simp only [isKeyEq, Bool.and_eq_true] at h
+    simp only [evalB, iha h.1, ihb h.2]
+    cases e.keyEq <;> rfl
+  | tt => intro h; simp [isKeyEq] at h
+  | ff => intro h; simp [isKeyEq] at h
+  | strEq a b => intro h; simp [isKeyEq] at h
+  | isSome a => intro h; simp [isKeyEq] at h
+  | cmp op a b => intro h; simp [isKeyEq] at h
+  | not a _ => intro h; simp [isKeyEq] at h
+  | opq i => intro h; simp [isKeyEq] at h
+
+theorem forces_sound (e : Env) : ∀ x (pol : Bool), forces pol x = true → evalB e x = some pol → e.keyEq = true := by
+  intro x
+  induction x with
+  | tt =>
+    intro pol h hv
+    cases pol
+    · simp [evalB] at hv
+    · simp [forces] at h
+  | ff =>
+    intro pol h hv
+    cases pol
+    · simp [forces] at h
+    · simp [evalB] at hv
+  | optEq a b =>
+    intro pol h hv
+    cases pol
+    · simp [forces] at h
+    · have hk : isKeyEq (.optEq a b) = true := by
+        rcases keyEq_shapes (forces true) (Or.inr rfl) a b h with ⟨ha, hb⟩ | ⟨ha, hb⟩ <;> subst ha <;> subst hb <;> rfl
+      rw [isKeyEq_sound e _ hk] at hv
+      exact Option.some.inj hv
+  | and a b iha ihb =>
+    intro pol h hv
+    cases pol
+    · simp only [forces, Bool.and_eq_true] at h
+      simp only [evalB] at hv
+      cases ha : evalB e a with
+      | none => simp [ha] at hv
+      | some va =>
+        cases va
+        · exact iha false h.1 ha
+        · simp only [ha] at hv
+          exact ihb false h.2 hv
+    · simp only [forces, Bool.or_eq_true] at h
+      simp only [evalB] at hv
+      cases ha : evalB e a with
+      | none => simp [ha] at hv
+      | some va =>
+        cases va
+        · simp [ha] at hv
+        · simp only [ha] at hv
+          rcases h with h | h
+          · exact iha true h ha
+          · exact ihb true h hv
+  | or a b iha ihb =>
+    intro pol h hv
+    cases pol
+    · simp only [forces, Bool.or_eq_true] at h
+      simp only [evalB] at hv
+      cases ha : evalB e a with
+      | none => simp [ha] at hv
+      | some va =>
+        cases va
+        · simp only [ha] at hv
+          rcases h with h | h
+          · exact iha false h ha
+          · exact ihb false h hv
+        · simp [ha] at hv
+    · simp only [forces, Bool.and_eq_true] at h
+      simp only [evalB] at hv
+      cases ha : evalB e a with
+      | none => simp [ha] at hv
+      | some va =>
+        cases va
+        · simp only [ha] at hv
+          exact ihb true h.2 hv
+        · exact iha true h.1 ha
+  | not a iha =>
+    intro pol h hv
+    simp only [evalB] at hv
+    cases ha : evalB e a with
+    | none => simp [ha] at hv
+    | some va =>
+      simp only [ha] at hv
+      have hpv : (!va) = pol := Option.some.inj hv
+      cases pol
+      · simp only [forces] at h
+        cases va
+        · simp at hpv
+        · exact iha true h ha
+      · simp only [forces] at h
+        cases va
+        · exact iha false h ha
+        · simp at hpv
+  | strEq a b => intro pol h _; cases pol <;> simp [forces] at h
+  | isSome a => intro pol h _; cases pol <;> simp [forces] at h
+  | cmp op a b => intro pol h _; cases pol <;> simp [forces] at h
+  | opq i => intro pol h _; cases pol <;> simp [forces] at h
+
+theorem evalN_total (e : Env) : ∀ x, totalN e.regs.length x = true → ∃ v, evalN e x = some v := by
+  intro x
+  induction x with
+  | lit n => intro _; exact ⟨n, rfl⟩
+  | lineNumber => intro _; exact ⟨_, rfl⟩
+  | reg i =>
+    intro h
+    simp only [totalN, decide_eq_true_eq] at h
+    exact ⟨e.regs[i], by simp [evalN, List.getElem?_eq_getElem h]⟩
+  | add a b _ _ => intro h; simp [totalN] at h
+  | sub a b _ _ => intro h; simp [totalN] at h
+  | satAdd a b iha ihb =>
+    intro h
+    simp only [totalN, Bool.and_eq_true] at h
+    obtain ⟨x, hx⟩ := iha h.1
+    obtain ⟨y, hy⟩ := ihb h.2
+    exact ⟨(x + y).min usizeMax, by simp [evalN, hx, hy]⟩
+  | satSub a b iha ihb =>
+    intro h
+    simp only [totalN, Bool.and_eq_true] at h
+    obtain ⟨x, hx⟩ := iha h.1
+    obtain ⟨y, hy⟩ := ihb h.2
+    exact ⟨x - y, by simp [evalN, hx, hy]⟩
+
+theorem evalO_total (e : Env) (x : OptStrE) (h : totalO e.sregs.length x = true) : ∃ v, evalO e x = some v := by
+  cases x with
+  | prevKey => exact ⟨_, rfl⟩
+  | sreg i =>
+    simp only [totalO, decide_eq_true_eq] at h
+    exact ⟨e.sregs[i], by simp [evalO, List.getElem?_eq_getElem h]⟩
+  | some s => exact ⟨_, rfl⟩
+  | none => exact ⟨_, rfl⟩
+
+theorem evalB_total (e : Env) : ∀ x, totalB e.regs.length e.sregs.length x = true → ∃ v, evalB e x = some v := by
+  intro x
+  induction x with
+  | tt => intro _; exact ⟨_, rfl⟩
+  | ff => intro _; exact ⟨_, rfl⟩
+  | optEq a b =>
+    intro h
+    simp only [totalB, Bool.and_eq_true] at h
+    obtain ⟨x, hx⟩ := evalO_total e a h.1
+    obtain ⟨y, hy⟩ := evalO_total e b h.2
+    exact ⟨decide (x = y), by simp [evalB, hx, hy]⟩
+  | strEq a b => intro _; exact ⟨_, rfl⟩
+  | isSome a =>
+    intro h
+    simp only [totalB] at h
+    obtain ⟨x, hx⟩ := evalO_total e a h
+    exact ⟨x.isSome, by simp [evalB, hx]⟩
+  | cmp op a b =>
+    intro h
+    simp only [totalB, Bool.and_eq_true] at h
+    obtain ⟨x, hx⟩ := evalN_total e a h.1
+    obtain ⟨y, hy⟩ := evalN_total e b h.2
+    exact ⟨cmpNat op x y, by simp [evalB, hx, hy]⟩
+  | and a b iha ihb =>
+    intro h
+    simp only [totalB, Bool.and_eq_true] at h
+    obtain ⟨x, hx⟩ := iha h.1
+    obtain ⟨y, hy⟩ := ihb h.2
+    cases x
+    · exact ⟨false, by simp [evalB, hx]⟩
+    · exact ⟨y, by simp [evalB, hx, hy]⟩
+  | or a b iha ihb =>
+    intro h
+    simp only [totalB, Bool.and_eq_true] at h
+    obtain ⟨x, hx⟩ := iha h.1
+    obtain ⟨y, hy⟩ := ihb h.2
+    cases x
+    · exact ⟨y, by simp [evalB, hx, hy]⟩
+    · exact ⟨true, by simp [evalB, hx]⟩
+  | not a iha =>
+    intro h
+    simp only [totalB] at h
+    obtain ⟨x, hx⟩ := iha h
+    exact ⟨!x, by simp [evalB, hx]⟩
+  | opq i => intro _; exact ⟨_, rfl⟩
+
+theorem mapM'_total {α β : Type} (f : α → Option β) (l : List α) (h : ∀ a ∈ l, ∃ b, f a = some b) :
+    ∃ bs, mapM' f l = some bs := by
+  induction l with
+  | nil => exact ⟨[], rfl⟩
+  | cons a rest ih =>
+    obtain ⟨b, hb⟩ := h a List.mem_cons_self
+    obtain ⟨bs, hbs⟩ := ih (fun x hx => h x (List.mem_cons_of_mem _ hx))
+    exact ⟨b :: bs, by simp [mapM', hb, hbs]⟩
+
+theorem evalUpd_total {α β : Type} (evalV : β → Option α) (e : Env) (old : α) (u : List (BoolE × β))
+    (hg : ∀ gv ∈ u, totalB e.regs.length e.sregs.length gv.1 = true) (hv : ∀ gv ∈ u, ∃ v, evalV gv.2 = some v) :
+    ∃ v, evalUpd evalV e old u = some v := by
+  induction u with
+  | nil => exact ⟨old, rfl⟩
+  | cons gv rest ih =>
+    obtain ⟨g, v⟩ := gv
+    obtain ⟨bg, hbg⟩ := evalB_total e g (hg (g, v) List.mem_cons_self)
+    cases bg
+    · obtain ⟨w, hw⟩ := ih (fun x hx => hg x (List.mem_cons_of_mem _ hx)) (fun x hx => hv x (List.mem_cons_of_mem _ hx))
+      exact ⟨w, by simp [evalUpd, hbg, hw]⟩
+    · obtain ⟨w, hw⟩ := hv (g, v) List.mem_cons_self
+      exact ⟨w, by simp [evalUpd, hbg, hw]⟩
+
+theorem nextRegs_total {α β : Type} (evalV : Env → β → Option α) (e : Env) :
+    ∀ (old : List α) (tbl : List (List (BoolE × β))),
+      (∀ u ∈ tbl, ∀ gv ∈ u, totalB e.regs.length e.sregs.length gv.1 = true ∧ ∃ v, evalV e gv.2 = some v) →
+      ∃ new, nextRegs evalV e old tbl = some new := by
+  intro old
+  induction old with
+  | nil => intro tbl _; exact ⟨[], by cases tbl <;> rfl⟩
+  | cons o rest ih =>
+    intro tbl h
+    cases tbl with
+    | nil => exact ⟨o :: rest, nextRegs_nil evalV e (o :: rest)⟩
+    | cons u us =>
+      obtain ⟨v, hv⟩ := evalUpd_total (evalV e) e o u (fun gv hgv => (h u List.mem_cons_self gv hgv).1)
+        (fun gv hgv => (h u List.mem_cons_self gv hgv).2)
+      obtain ⟨l, hl⟩ := ih us (fun u' hu' => h u' (List.mem_cons_of_mem _ hu'))
+      exact ⟨v :: l, by simp [nextRegs, hv, hl]⟩
+
+theorem flags_total_of_tableTotal (h : tableTotal = true) (e : Env) (hw : e.wf) : (flags e).isSome = true := by
+  unfold tableTotal at h
+  simp only [Bool.and_eq_true, List.all_eq_true] at h
+  obtain ⟨⟨⟨⟨⟨⟨⟨hAN, hAB⟩, hb⟩, hs⟩, hn⟩, hu⟩, hNN⟩, hSN⟩ := h
+  rw [← hw.1] at hAN hAB hb hs hn hu hNN hSN
+  rw [← hw.2] at hAB hb hs hn hu hNN hSN
+  obtain ⟨an, han⟩ := mapM'_total (evalN e) _ (fun a ha => evalN_total e a (hAN a ha))
+  obtain ⟨ab, hab⟩ := mapM'_total (evalB e) _ (fun a ha => evalB_total e a (hAB a ha))
+  obtain ⟨vb, hvb⟩ := evalB_total e _ hb
+  obtain ⟨vs, hvs⟩ := evalB_total e _ hs
+  obtain ⟨vn, hvn⟩ := evalB_total e _ hn
+  obtain ⟨vu, hvu⟩ := evalB_total e _ hu
+  obtain ⟨nr, hnr⟩ := nextRegs_total evalN e e.regs Generated.BlameFlow.numNext (fun u hu' gv hgv => by
+    have := hNN u hu' gv hgv
+    exact ⟨this.1, evalN_total e gv.2 this.2⟩)
+  obtain ⟨sr, hsr⟩ := nextRegs_total evalO e e.sregs Generated.BlameFlow.strNext (fun u hu' gv hgv => by
+    have := hSN u hu' gv hgv
+    exact ⟨this.1, evalO_total e gv.2 this.2⟩)
+  simp [flags, han, hab, hvb, hvs, hvn, hvu, hnr, hsr]
+
+/-- `FlowOk` from the decidable checks of the generated table. -/
+theorem flowOk_of_tableOk (h : tableOk = true) : FlowOk := by
+  unfold tableOk at h
+  simp only [Bool.and_eq_true] at h
+  obtain ⟨⟨⟨⟨hs, hb⟩, hn⟩, hu⟩, ht⟩ := h
+  refine flowOk_of_table ?_ (fun e hv => forces_sound e _ true hb hv) (fun e hv => forces_sound e _ true hn hv)
+    (fun e hv => forces_sound e _ false hu hv) (fun e hw => flags_total_of_tableTotal ht e hw)
+  intro e b hv
+  rw [isKeyEq_sound e _ hs] at hv
+  exact (Option.some.inj hv).symm
+
 end BlameFlow
